@@ -3,9 +3,9 @@ package main
 // C12 — transaction-data parsers are total and inverse to the builders.
 
 import (
-	"go/types"
 	"fmt"
 	"go/token"
+	"go/types"
 	"strings"
 
 	"golang.org/x/tools/go/ssa"
@@ -98,56 +98,88 @@ func c12r3(c *Ctx) {
 		return
 	}
 	sepFields := map[string]bool{}
-	// the pieces the string is put together from: operands of `+`, or arguments of strings.Builder.WriteString
-	pieces := func(in ssa.Instruction) []ssa.Value {
-		switch x := in.(type) {
-		case *ssa.BinOp:
-			if x.Op == token.ADD {
-				return []ssa.Value{x.X, x.Y}
-			}
-		case *ssa.Call:
-			if CalleeName(x) == "(*strings.Builder).WriteString" && len(x.Call.Args) == 2 {
-				return []ssa.Value{x.Call.Args[1]}
+	// The pieces the string is put together from, and which of them join elements: every leaf but the first of a `+` chain
+	// (`data + sep + element`, `head + sep + strings.Join(…)`), the separator argument of strings.Join, and what a
+	// strings.Builder is fed inside the loop over the elements.
+	inCycle := func(b *ssa.BasicBlock) bool {
+		for _, s := range b.Succs {
+			if s == b || reachableAvoiding(s, b, nil) {
+				return true
 			}
 		}
-		return nil
+		return false
 	}
+	var leaves func(v ssa.Value, out *[]ssa.Value)
+	leaves = func(v ssa.Value, out *[]ssa.Value) {
+		if bo, ok := v.(*ssa.BinOp); ok && bo.Op == token.ADD {
+			leaves(bo.X, out)
+			leaves(bo.Y, out)
+			return
+		}
+		*out = append(*out, v)
+	}
+	type joinerUse struct {
+		v  ssa.Value
+		at ssa.Instruction
+	}
+	var joiners []joinerUse
 	for _, b := range toString.Blocks {
 		for _, in := range b.Instrs {
-			for _, op := range pieces(in) {
-				if ld, ok := op.(*ssa.UnOp); ok {
-					if fa, ok := ld.X.(*ssa.FieldAddr); ok && b.Index != 0 { // inside the loop: the joiner, not the head
-						if _, isStr := ld.Type().Underlying().(*types.Basic); isStr {
-							sepFields[fieldName(fa.X.Type(), fa.Field)] = true
+			switch x := in.(type) {
+			case *ssa.BinOp:
+				if x.Op != token.ADD {
+					continue
+				}
+				// only maximal chains: a `+` that is itself an operand of a `+` is part of its parent's chain
+				partOfChain := false
+				if x.Referrers() != nil {
+					for _, r := range *x.Referrers() {
+						if pb, ok := r.(*ssa.BinOp); ok && pb.Op == token.ADD {
+							partOfChain = true
 						}
 					}
 				}
+				if partOfChain {
+					continue
+				}
+				var ls []ssa.Value
+				leaves(x, &ls)
+				for _, l := range ls[1:] {
+					joiners = append(joiners, joinerUse{l, x})
+				}
+			case *ssa.Call:
+				switch CalleeName(x) {
+				case "(*strings.Builder).WriteString":
+					if len(x.Call.Args) == 2 && inCycle(b) {
+						joiners = append(joiners, joinerUse{x.Call.Args[1], x})
+					}
+				case "strings.Join":
+					joiners = append(joiners, joinerUse{x.Call.Args[1], x})
+				}
+			}
+		}
+	}
+	for _, j := range joiners {
+		switch v := j.v.(type) {
+		case *ssa.UnOp:
+			if fa, ok := v.X.(*ssa.FieldAddr); ok {
+				if _, isStr := v.Type().Underlying().(*types.Basic); isStr {
+					sepFields[fieldName(fa.X.Type(), fa.Field)] = true
+				}
+			}
+		case *ssa.Const:
+			if s, ok := constStringVal(v.Value); ok {
+				if s == sepP {
+					c.OK(rule, FuncName(toString), "joiner literal", c.P.InstrPos(j.at), "builder joins with the parser's separator")
+				} else {
+					c.Fail(rule, "violation", FuncName(toString), "joiner literal", c.P.InstrPos(j.at), fmt.Sprintf("builder joins elements with %q, the parsers split on %q", s, sepP))
+				}
+				sepFields["<literal>"] = true
 			}
 		}
 	}
 	if len(sepFields) == 0 {
-		// a literal separator in ToString
-		for _, b := range toString.Blocks {
-			for _, in := range b.Instrs {
-				if bo := in; len(pieces(in)) > 0 {
-					for _, op := range pieces(in) {
-						if k, ok := op.(*ssa.Const); ok {
-							if s, ok := constStringVal(k.Value); ok && b.Index != 0 {
-								if s == sepP {
-									c.OK(rule, FuncName(toString), "joiner literal", c.P.InstrPos(bo), "builder joins with the parser's separator")
-								} else {
-									c.Fail(rule, "violation", FuncName(toString), "joiner literal", c.P.InstrPos(bo), fmt.Sprintf("builder joins elements with %q, the parsers split on %q", s, sepP))
-								}
-								sepFields["<literal>"] = true
-							}
-						}
-					}
-				}
-			}
-		}
-		if len(sepFields) == 0 {
-			c.Anchor(rule, "the joiner used by txDataBuilder.ToString")
-		}
+		c.Anchor(rule, "the joiner used by txDataBuilder.ToString")
 	}
 	for f := range sepFields {
 		if f == "<literal>" {
@@ -269,6 +301,12 @@ func c12r3(c *Ctx) {
 					if sc := call.Call.StaticCallee(); sc != nil && sc != fn && sc.Signature.Recv() != nil && c.P.InPkgs(sc, "txDataBuilder") && e.LE(a).String() == pt && isInteger(a.Type()) {
 						good = "delegates to " + sc.Name() + " with the parameter"
 					}
+					// delegation to the big-number method: Int64(v) { return b.BigInt(big.NewInt(v)) }
+					if sc := call.Call.StaticCallee(); sc != nil && sc != fn && sc.Signature.Recv() != nil && c.P.InPkgs(sc, "txDataBuilder") && isBigIntPtr(a.Type()) {
+						if t := e.Term(a); t == "bigI("+pt+")" || t == "bigU("+pt+")" {
+							good = "delegates to " + sc.Name() + " with " + t
+						}
+					}
 				}
 			}
 		}
@@ -367,6 +405,25 @@ func isHexValue(e *Env, v ssa.Value, depth int) bool {
 	case *ssa.Phi:
 		for _, ed := range x.Edges {
 			if !isHexValue(e, ed, depth+1) {
+				return false
+			}
+		}
+		return true
+	case *ssa.Parameter:
+		// the parameter of an unexported helper: hex at every call site
+		fn := x.Parent()
+		if isExportedAPI(fn) || len(e.P.Callers[fn]) == 0 {
+			return false
+		}
+		idx := -1
+		for i, q := range fn.Params {
+			if q == x {
+				idx = i
+			}
+		}
+		for _, cs := range e.P.Callers[fn] {
+			cc := cs.Common()
+			if cc.IsInvoke() || idx < 0 || idx >= len(cc.Args) || !isHexValue(e.P.Env(cs.Parent()), cc.Args[idx], depth+1) {
 				return false
 			}
 		}
